@@ -23,6 +23,9 @@ func (g *gen) c(l string) *crlObj {
 	}
 	c, ok := g.e.crls[l]
 	if !ok {
+		if mk, lz := g.e.lazy[l]; lz {
+			return mk() // a big CRL of the size ladder: minted once, on first use
+		}
 		panic("c15: no crl " + l)
 	}
 	return c
@@ -250,7 +253,7 @@ func (g *gen) randSet(r *Rng, u string) *hop {
 	return g.set(u, b, d)
 }
 
-func (g *gen) families(a *Args, rng *Rng, emit func(*hcase), deferCase func(mk func(r *Rng) *hcase)) {
+func (g *gen) families(a *Args, rng *Rng, emit func(*hcase), deferCase func(mk func(r *Rng) *hcase), emitLazy func(mk func() *hcase)) {
 	thorough := a.Tier == "thorough"
 	u0 := g.near[0]
 	all := [][]string{g.near, g.near, g.near, g.near, g.near, g.hostile, g.hostile, g.hostile, g.hostile, g.long}
@@ -535,6 +538,25 @@ func (g *gen) families(a *Args, rng *Rng, emit func(*hcase), deferCase func(mk f
 		u := g.near[(k*3)%len(g.near)]
 		k++
 		emit(&hcase{Family: "sizes", Ops: []*hop{g.set(u, p[0], p[1]), get(u), on(1, get(u)), g.set(u, "F1", ""), get(u)}})
+	}
+
+	// I. size ladder: Set / Get round trips of bundles as large as the library may fetch
+	// (notation-core-go reads up to 32 MiB per CRL): whatever Set stored, Get must give back.
+	// The entry on disk is JSON with base64 (4/3 of the raw size, base plus delta). Raw sizes:
+	// quick 1 and 8 MiB, and an EXPIRED 8 MiB delta under a fresh 1 MiB base; thorough adds
+	// 20, 26, 31 MiB bases and a 14 MiB base with a 14 MiB delta. Each CRL is minted once per
+	// run (on first use); Coq sees "<big N bytes sha256 H>" for its bytes (main.go, bigT).
+	ladder := [][2]string{{"L1", ""}, {"L8", ""}, {"L1", "EL8D"}, {"L8", "FD1"}}
+	if thorough {
+		ladder = append(ladder, [2]string{"L20", ""}, [2]string{"L26", ""}, [2]string{"L31", ""}, [2]string{"L14", "LD14"}, [2]string{"F1", "LD14"})
+	}
+	for i, p := range ladder {
+		p := p
+		u := g.near[(i*5+2)%len(g.near)]
+		v := g.near[(i*5+3)%len(g.near)]
+		emitLazy(func() *hcase {
+			return &hcase{Family: "ladder", Ops: []*hop{g.set(u, p[0], p[1]), get(u), on(1, get(u)), get(v), g.set(u, "F1", ""), get(u), g.set(v, p[0], p[1]), on(1, get(v))}}
+		})
 	}
 }
 
